@@ -194,6 +194,8 @@ class EvalMixin(object):
                    z3.If(PyVal.is_pnone(e), S("None"), self._ostr(PyVal.po(e))))))
         if isinstance(v, VOpt):
             return z3.If(v.isnone, S("None"), self.strof(v.val, st, node))
+        if isinstance(v, (VRef, VTuple)):
+            return z3.String(fresh_name("str_of_object"))     # repr-like text of a container/object: unspecified
         raise OutOfSubset("str() of %r" % (v,), node)
 
     _ostr = z3.Function("py_str_other", IntS, StrS)
